@@ -18,7 +18,7 @@
 From Coq Require Import List NArith ZArith Bool Lia.
 From Abasic Require Import Model.Bytes Model.Num Model.Token Model.Data Model.Lexer Gen.Tables
      Model.State Model.Eval Model.Interp Proofs.Monad Proofs.Frames Proofs.StoreProofs
-     Proofs.ResetProofs Proofs.Safety Proofs.FlagsSim.
+     Proofs.ResetProofs Proofs.Safety Proofs.FlagsSim Proofs.InputProofs Proofs.RunInv.
 Import ListNotations.
 Local Open Scope nat_scope.
 
@@ -475,25 +475,352 @@ Proof.
 Qed.
 
 (* ------------------------------------------------------------------ *)
-(* 2. Break, then CONT, while the program is awaiting input *)
+(* 1b. The same at the level of observations (outcome, output records, state) *)
 
-Lemma peek_ok_inv s t :
-  fst (peek_next_token s) = Ok t ->
-  line_exists s (loc s) /\ nth_error (cur_toks s) (loc_idx (loc s)) = t.
+Lemma call_obs_break fuel s n :
+  state s = Running \/ state s = AwaitingInput -> loc_line (loc s) = Some n ->
+  call_obs fuel s HBreak = Some (Ok tt, outputs s ++ [OBreak (Some n)], broken n (loc_idx (loc s)) s).
 Proof.
-  unfold peek_next_token. rewrite bind_modify.
-  unfold cur_tokens, bind, get, tokens_for_line, ret, line_exists, line_ok, cur_toks.
-  cbn [loc st_toks immediate set_reads].
-  destruct (loc_line (loc s)) as [n|]; [destruct (toks_get n (st_toks s))|];
-    cbn [fst]; intros H; inversion H; split; congruence || exact I.
+  intros Hst Hl. unfold call_obs.
+  assert (Hleg : legal s HBreak = true) by (unfold legal; destruct Hst as [-> | ->]; reflexivity).
+  rewrite Hleg. cbn [negb]. rewrite host_break_eq. unfold pack.
+  unfold imm_reset, numbered_of, broken. cbn [loc outputs set_reads set_state set_outputs set_breakpoint
+    breakpoint]. rewrite Hl. reflexivity.
 Qed.
 
-Lemma has_next_eq s :
-  line_exists s (loc s) ->
-  has_next_token s =
-  (Ok (match nth_error (cur_toks s) (loc_idx (loc s)) with Some _ => true | None => false end), bump s).
-Proof. intros H. unfold has_next_token. rewrite bind_run, (peek_eq s H). reflexivity. Qed.
+Lemma step_snd_call_obs fuel s op :
+  snd (step fuel s op) = match call_obs fuel s op with Some (_, _, s') => s' | None => silent_step s op end.
+Proof. rewrite step_is_call_obs. destruct (call_obs fuel s op) as [[[r o] s']|]; reflexivity. Qed.
 
-Definition trace_out (s : interp) : list output :=
-  if enable_tracing s then match loc_line (loc s) with Some n => [OTrace n] | None => [] end else [].
+Theorem break_cont_obs fuel s n :
+  state s = Running -> loc_line (loc s) = Some n ->
+  breakpoint s = None -> immediate s = [] -> outputs s = [] ->
+  call_obs fuel (broken n (loc_idx (loc s)) s) (HLine CONT) = call_obs fuel s HCont.
+Proof.
+  intros Hst Hl Hbp Himm Hout.
+  set (sb := broken n (loc_idx (loc s)) s).
+  unfold call_obs. change (legal sb (HLine CONT)) with true. unfold legal. rewrite Hst. cbn [negb].
+  unfold start_evaluating.
+  rewrite (evaluate_impl_CONT fuel (set_reads 0 sb) (n, loc_idx (loc s))) by reflexivity.
+  rewrite (rns_state fuel _ (set_reads 0 s)) by (apply resume_state; auto).
+  unfold continue_evaluating. change (state (set_reads 0 s)) with (state s). rewrite Hst. reflexivity.
+Qed.
 
+(* ------------------------------------------------------------------ *)
+(* 2. Break, then CONT, while the program is awaiting input.
+
+   [awaiting_ok s]: the state every INPUT suspension produces (C08_await): the
+   cursor is ON the INPUT token and no reply is pending. *)
+
+Definition awaiting_ok (s : interp) : Prop :=
+  state s = AwaitingInput /\ line_exists s (loc s)
+  /\ nth_error (cur_toks s) (loc_idx (loc s)) = Some TInput /\ input s = None.
+
+Lemma rns_at_token fuel s t :
+  line_exists s (loc s) -> nth_error (cur_toks s) (loc_idx (loc s)) = Some t ->
+  run_next_statement fuel s = (evaluate_statement fuel 0 ;;; after_statement) (bump (set_state Running s)).
+Proof.
+  intros Hl Hi. unfold run_next_statement. rewrite StoreProofs.bind_modify.
+  set (s1 := set_state Running s).
+  assert (Hl1 : line_exists s1 (loc s1)) by exact Hl.
+  rewrite Safety.bind_run, (has_next_token_eq s1 Hl1).
+  change (cur_toks s1) with (cur_toks s). change (loc s1) with (loc s). rewrite Hi. reflexivity.
+Qed.
+
+Lemma max_nesting_pos : 0 < max_nesting.
+Proof. vm_compute. repeat constructor. Qed.
+
+(* re-executing the suspended INPUT: the same request again *)
+Lemma rns_awaiting fuel s :
+  line_exists s (loc s) -> nth_error (cur_toks s) (loc_idx (loc s)) = Some TInput -> input s = None ->
+  1 <= fuel ->
+  run_next_statement fuel s
+  = (Ok tt, set_reads (4 + reads s) (set_state AwaitingInput (set_outputs (outputs s ++ trace_of s) s))).
+Proof.
+  intros Hl Hi Hin Hf. rewrite (rns_at_token fuel s TInput Hl Hi).
+  set (s1 := bump (set_state Running s)).
+  assert (Hct : fst (cur_tokens s1) = Ok (cur_toks s)).
+  { rewrite (cur_tokens_eq s1); [reflexivity|exact Hl]. }
+  rewrite Safety.bind_run.
+  rewrite (input_awaits fuel 0 s1 (cur_toks s) Hct Hi Hin Hf max_nesting_pos).
+  set (s2 := set_reads _ _). unfold after_statement.
+  assert (Hl2 : line_exists s2 (loc s2)) by exact Hl.
+  rewrite Safety.bind_run, (has_next_token_eq s2 Hl2).
+  change (cur_toks s2) with (cur_toks s). change (loc s2) with (loc s). rewrite Hi.
+  subst s2 s1. unfold bump. cbn [ret]. f_equal.
+  destruct s as [? ? ? [? ?] ? ? ? ? ? ? ? ? ? ? ? ? ? ? ?]; reflexivity.
+Qed.
+
+Theorem break_cont_awaiting fuel s n :
+  awaiting_ok s -> loc_line (loc s) = Some n ->
+  breakpoint s = None -> immediate s = [] -> outputs s = [] -> 1 <= fuel ->
+  call_obs fuel (broken n (loc_idx (loc s)) s) (HLine CONT)
+  = Some (Ok tt, trace_of s, set_reads 4 s).
+Proof.
+  intros (Hst & Hle & Hi & Hin) Hl Hbp Himm Hout Hf.
+  set (sb := broken n (loc_idx (loc s)) s).
+  unfold call_obs. change (legal sb (HLine CONT)) with true. cbn [negb].
+  unfold start_evaluating.
+  rewrite (evaluate_impl_CONT fuel (set_reads 0 sb) (n, loc_idx (loc s))) by reflexivity.
+  rewrite (rns_state fuel _ (set_reads 0 s)) by (apply resume_state; auto).
+  rewrite (rns_awaiting fuel (set_reads 0 s)) by assumption.
+  cbn [postprocess pack]. change (outputs (set_reads 0 s)) with (outputs s). rewrite Hout.
+  change (trace_of (set_reads 0 s)) with (trace_of s). cbn [app outputs set_reads set_state set_outputs].
+  f_equal. f_equal.
+  destruct s as [? ? ? [? ?] ? ? ? ? ? ? ? ? ? ? ? ? ? ? ?]; cbn in *; subst; reflexivity.
+Qed.
+
+(* ------------------------------------------------------------------ *)
+(* 3. Schedules: any choice of turn boundaries at which the host breaks in and
+      then issues CONT.
+
+   The program is driven by [HCont] / [HReply] calls ("the plain run").  A
+   schedule replaces some [HCont] by [HBreak; CONT] (a break while Running:
+   CONT executes the statement the replaced call would have executed) and
+   inserts [HBreak; CONT] at some boundaries where the program awaits input
+   (CONT re-issues the request).  What the program shows — its Print / Reenter
+   / ExtraIgnored / Warning records and its errors, i.e. everything but BREAK
+   notices and trace records — and its final state are those of the plain run. *)
+
+Definition prog_out (o : output) : bool :=
+  match o with OBreak _ | OTrace _ => false | _ => true end.
+
+Definition shown (x : option (res unit * list output * interp))
+  : list output * list (ierror * option location) :=
+  match x with
+  | Some (r, outs, _) => (filter prog_out outs, match r with Err e l => [(e, l)] | _ => [] end)
+  | None => ([], [])
+  end.
+
+Definition cat2 {A B} (x y : list A * list B) : list A * list B := (fst x ++ fst y, snd x ++ snd y).
+
+Fixpoint transcript (fuel : nat) (s : interp) (ops : list hostop)
+  : list output * list (ierror * option location) :=
+  match ops with
+  | [] => ([], [])
+  | op :: r => cat2 (shown (call_obs fuel s op)) (transcript fuel (snd (step fuel s op)) r)
+  end.
+
+Definition drive (op : hostop) : Prop := op = HCont \/ exists t, op = HReply t.
+
+Inductive sched (fuel : nat) : interp -> list hostop -> list hostop -> Prop :=
+| sched_nil s : sched fuel s [] []
+| sched_op s op ops ops' :
+    drive op -> sched fuel (snd (step fuel s op)) ops ops' -> sched fuel s (op :: ops) (op :: ops')
+| sched_break_running s ops ops' :
+    state s = Running -> sched fuel (snd (step fuel s HCont)) ops ops' ->
+    sched fuel s (HCont :: ops) (HBreak :: HLine CONT :: ops')
+| sched_break_awaiting s ops ops' :
+    awaiting_ok s -> sched fuel s ops ops' ->
+    sched fuel s ops (HBreak :: HLine CONT :: ops').
+
+(* every call of the plain run returns a value or an error (no Panic — see
+   C01 — and none of the model's own OutOfFuel / OracleMiss) *)
+Fixpoint values (fuel : nat) (s : interp) (ops : list hostop) : Prop :=
+  match ops with
+  | [] => True
+  | op :: r => match call_obs fuel s op with Some (x, _, _) => is_val x | None => True end
+               /\ values fuel (snd (step fuel s op)) r
+  end.
+
+(* states equal but for the hook counter *)
+Definition eqr (s t : interp) : Prop := set_reads 0 s = set_reads 0 t.
+
+Lemma eqr_refl s : eqr s s. Proof. reflexivity. Qed.
+
+Lemma eqr_state s t : eqr s t -> state s = state t.
+Proof. intros H. exact (f_equal state H). Qed.
+
+Lemma call_obs_eqr fuel s t op : eqr s t -> call_obs fuel s op = call_obs fuel t op.
+Proof.
+  intros H. unfold call_obs, legal. rewrite (eqr_state _ _ H).
+  assert (Ho : pow_oracle s = pow_oracle t) by exact (f_equal pow_oracle H).
+  unfold eqr in H. rewrite H, Ho. reflexivity.
+Qed.
+
+Lemma silent_step_eqr s t op : eqr s t -> eqr (silent_step s op) (silent_step t op).
+Proof.
+  intros H. unfold silent_step, legal. rewrite (eqr_state _ _ H).
+  assert (Ho : pow_oracle s = pow_oracle t) by exact (f_equal pow_oracle H).
+  destruct op; destruct (state t); try exact H; try (unfold eqr; rewrite Ho; reflexivity).
+  all: unfold eqr in *;
+    change (set_reads 0 (set_flags w t0 s)) with (set_flags w t0 (set_reads 0 s));
+    change (set_reads 0 (set_flags w t0 t)) with (set_flags w t0 (set_reads 0 t)); rewrite H; reflexivity.
+Qed.
+
+Lemma step_eqr fuel s t op : eqr s t -> eqr (snd (step fuel s op)) (snd (step fuel t op)).
+Proof.
+  intros H. rewrite !step_snd_call_obs, (call_obs_eqr fuel s t op H).
+  destruct (call_obs fuel t op) as [[[r o] s']|]; [apply eqr_refl|apply silent_step_eqr, H].
+Qed.
+
+Lemma transcript_eqr fuel ops : forall s t, eqr s t -> transcript fuel s ops = transcript fuel t ops.
+Proof.
+  induction ops as [|op ops IH]; intros s t H; cbn [transcript]; [reflexivity|].
+  rewrite (call_obs_eqr fuel s t op H), (IH _ _ (step_eqr fuel s t op H)). reflexivity.
+Qed.
+
+Lemma run_state_eqr fuel ops : forall s t, eqr s t -> eqr (run_state fuel s ops) (run_state fuel t ops).
+Proof.
+  induction ops as [|op ops IH]; intros s t H; cbn [run_state]; [exact H|].
+  apply IH, step_eqr, H.
+Qed.
+
+(* the invariant of the plain run *)
+Definition Inv (s : interp) : Prop :=
+  outputs s = [] /\ (state s = Running \/ state s = AwaitingInput -> J s).
+
+Lemma J_set_reads r s : J s -> J (set_reads r s).
+Proof. apply J_ext; reflexivity. Qed.
+Lemma J_set_outputs o s : J s -> J (set_outputs o s).
+Proof. apply J_ext; reflexivity. Qed.
+
+Lemma Inv_step fuel s op :
+  Inv s -> drive op ->
+  match call_obs fuel s op with Some (x, _, _) => is_val x | None => True end ->
+  Inv (snd (step fuel s op)).
+Proof.
+  intros [Hout HJ] Hd Hv. rewrite step_snd_call_obs. unfold call_obs in *.
+  destruct (legal s op) eqn:Hleg; cbn [negb] in *.
+  2:{ unfold silent_step. rewrite Hleg. split; assumption. }
+  destruct Hd as [->|[text ->]].
+  - unfold legal in Hleg. destruct (state s) eqn:Hst; try discriminate.
+    specialize (HJ (or_introl eq_refl)).
+    pose proof (continue_keeps_J fuel (set_reads 0 s) (J_set_reads 0 s HJ) Hst) as H.
+    destruct (continue_evaluating fuel (set_reads 0 s)) as [r s1]. cbn [pack] in *.
+    split; [reflexivity|]. cbn [state set_outputs]. intros Hs.
+    apply J_set_outputs.
+    destruct r as [u|e l|p| |]; cbn in Hv; try contradiction.
+    + apply H. destruct Hs as [Hs|Hs]; rewrite Hs; discriminate.
+    + rewrite H in Hs. destruct Hs; discriminate.
+  - unfold legal in Hleg. destruct (state s) eqn:Hst; try discriminate.
+    specialize (HJ (or_intror eq_refl)).
+    pose proof (reply_keeps_J text (set_reads 0 s) (J_set_reads 0 s HJ)) as H.
+    destruct (provide_input text (set_reads 0 s)) as [r s1]. cbn [pack snd] in *.
+    split; [reflexivity|]. intros _. apply J_set_outputs, H.
+Qed.
+
+Lemma filter_break n : filter prog_out [OBreak n] = [].
+Proof. reflexivity. Qed.
+
+Lemma filter_trace s : filter prog_out (trace_of s) = [].
+Proof. unfold trace_of. destruct (enable_tracing s); [destruct (loc_line (loc s))|]; reflexivity. Qed.
+
+Lemma J_numbered s : J s -> exists n, loc_line (loc s) = Some n.
+Proof. intros HJ. pose proof (j_loc _ HJ) as H. unfold numbered in H. destruct (loc_line (loc s)); [eauto|congruence]. Qed.
+
+Theorem break_schedule fuel : forall s ops ops',
+  sched fuel s ops ops' -> 1 <= fuel ->
+  forall t, eqr t s -> Inv s -> values fuel s ops ->
+  transcript fuel t ops' = transcript fuel s ops
+  /\ eqr (run_state fuel t ops') (run_state fuel s ops).
+Proof.
+  intros s ops ops' Hs Hf. induction Hs as [s|s op ops ops' Hd Hs IH|s ops ops' Hst Hs IH|s ops ops' Haw Hs IH];
+    intros t Ht Hinv Hval.
+  - split; [reflexivity|exact Ht].
+  - destruct Hval as [Hv Hval]. cbn [transcript run_state].
+    rewrite (call_obs_eqr fuel t s op Ht).
+    destruct (IH (snd (step fuel t op)) (step_eqr fuel t s op Ht) (Inv_step fuel s op Hinv Hd Hv) Hval) as [I1 I2].
+    rewrite I1. split; [reflexivity|exact I2].
+  - destruct Hval as [Hv Hval]. destruct Hinv as [Hout HJ].
+    pose proof (HJ (or_introl Hst)) as HJs. destruct (J_numbered s HJs) as [n Hl].
+    cbn [transcript run_state].
+    (* the break call *)
+    rewrite (call_obs_eqr fuel t s HBreak Ht), (call_obs_break fuel s n (or_introl Hst) Hl).
+    assert (Eb : eqr (snd (step fuel t HBreak)) (broken n (loc_idx (loc s)) s)).
+    { rewrite step_snd_call_obs, (call_obs_eqr fuel t s HBreak Ht), (call_obs_break fuel s n (or_introl Hst) Hl).
+      apply eqr_refl. }
+    set (tb := snd (step fuel t HBreak)) in *.
+    (* the CONT call is the replaced HCont call *)
+    rewrite (call_obs_eqr fuel tb _ (HLine CONT) Eb).
+    rewrite (break_cont_obs fuel s n Hst Hl (j_bp _ HJs) (j_imm _ HJs) Hout).
+    assert (Ec : eqr (snd (step fuel tb (HLine CONT))) (snd (step fuel s HCont))).
+    { rewrite !step_snd_call_obs, (call_obs_eqr fuel tb _ (HLine CONT) Eb),
+        (break_cont_obs fuel s n Hst Hl (j_bp _ HJs) (j_imm _ HJs) Hout).
+      destruct (call_obs fuel s HCont) as [[[r o] s']|] eqn:Ec; [apply eqr_refl|].
+      unfold call_obs, legal in Ec. rewrite Hst in Ec. cbn in Ec.
+      destruct (continue_evaluating fuel (set_reads 0 s)); discriminate. }
+    destruct (IH _ Ec (Inv_step fuel s HCont (conj Hout HJ) (or_introl eq_refl) Hv) Hval) as [I1 I2].
+    rewrite I1. rewrite Hout. cbn [app shown]. rewrite filter_break.
+    split; [|exact I2].
+    unfold cat2. cbn [fst snd app]. reflexivity.
+  - destruct Hinv as [Hout HJ]. destruct Haw as (Hst & Hle & Hi & Hin).
+    pose proof (HJ (or_intror Hst)) as HJs. destruct (J_numbered s HJs) as [n Hl].
+    cbn [transcript run_state].
+    rewrite (call_obs_eqr fuel t s HBreak Ht), (call_obs_break fuel s n (or_intror Hst) Hl).
+    assert (Eb : eqr (snd (step fuel t HBreak)) (broken n (loc_idx (loc s)) s)).
+    { rewrite step_snd_call_obs, (call_obs_eqr fuel t s HBreak Ht), (call_obs_break fuel s n (or_intror Hst) Hl).
+      apply eqr_refl. }
+    set (tb := snd (step fuel t HBreak)) in *.
+    assert (Haw : awaiting_ok s) by (repeat split; assumption).
+    rewrite (call_obs_eqr fuel tb _ (HLine CONT) Eb).
+    rewrite (break_cont_awaiting fuel s n Haw Hl (j_bp _ HJs) (j_imm _ HJs) Hout Hf).
+    assert (Ec : eqr (snd (step fuel tb (HLine CONT))) s).
+    { rewrite step_snd_call_obs, (call_obs_eqr fuel tb _ (HLine CONT) Eb),
+        (break_cont_awaiting fuel s n Haw Hl (j_bp _ HJs) (j_imm _ HJs) Hout Hf). reflexivity. }
+    destruct (IH _ Ec (conj Hout HJ) Hval) as [I1 I2].
+    rewrite I1. rewrite Hout. cbn [app shown]. rewrite filter_break, filter_trace.
+    split; [|exact I2]. unfold cat2. cbn [fst snd app]. destruct (transcript fuel s ops); reflexivity.
+Qed.
+
+(* from RUN: the state after a RUN line that left the program going satisfies
+   the invariant, so the theorem applies to every program started by RUN *)
+Theorem Inv_after_run fuel s :
+  state s = Idle ->
+  match call_obs fuel s (HLine (bs "RUN")) with
+  | Some (Ok _, _, s') => Inv s'
+  | _ => True
+  end.
+Proof.
+  intros Hidle. unfold call_obs, legal. rewrite Hidle. cbn [negb].
+  pose proof (run_establishes_J fuel (set_reads 0 s) Hidle) as H.
+  destruct (start_evaluating fuel (bs "RUN") (set_reads 0 s)) as [r s1]. cbn [pack].
+  destruct r as [u|e l|p| |]; try exact I. destruct u.
+  split; [reflexivity|]. cbn [state set_outputs]. intros Hs. apply J_set_outputs, H; [reflexivity|].
+  destruct Hs as [Hs|Hs]; rewrite Hs; discriminate.
+Qed.
+
+(* ------------------------------------------------------------------ *)
+(* 4. Inspection at a breakpoint.
+
+   CONT reads the breakpoint and the runtime part of the state only: not the
+   immediate line, not the cursor, not the hook counter.  So whatever was
+   typed at the breakpoint — succeeding or failing — cannot change the
+   continuation unless it changed the runtime part itself. *)
+
+Definition norm (s : interp) : interp := set_reads 0 (set_loc imm0 (set_immediate [] s)).
+
+Theorem cont_reads_runtime_only fuel s1 s2 :
+  state s1 = Idle -> breakpoint s1 <> None -> norm s1 = norm s2 ->
+  call_obs fuel s1 (HLine CONT) = call_obs fuel s2 (HLine CONT).
+Proof.
+  intros Hidle Hbp Hn.
+  assert (Hidle2 : state s2 = Idle) by (rewrite <- Hidle; symmetry; exact (f_equal state Hn)).
+  assert (Hbp2 : breakpoint s2 = breakpoint s1) by (symmetry; exact (f_equal breakpoint Hn)).
+  destruct (breakpoint s1) as [p|] eqn:Ebp; [|congruence].
+  unfold call_obs, legal. rewrite Hidle, Hidle2. cbn [negb]. unfold start_evaluating.
+  rewrite (evaluate_impl_CONT fuel (set_reads 0 s1) p) by assumption.
+  rewrite (evaluate_impl_CONT fuel (set_reads 0 s2) p) by assumption.
+  replace (set_breakpoint None (set_loc (loc_of_numbered p) (set_immediate [] (set_reads 0 s1))))
+    with (set_breakpoint None (set_loc (loc_of_numbered p) (norm s1)))
+    by (destruct s1; reflexivity).
+  replace (set_breakpoint None (set_loc (loc_of_numbered p) (set_immediate [] (set_reads 0 s2))))
+    with (set_breakpoint None (set_loc (loc_of_numbered p) (norm s2)))
+    by (destruct s2; reflexivity).
+  rewrite Hn. reflexivity.
+Qed.
+
+(* ... and the whole continuation after it *)
+Corollary continuation_reads_runtime_only fuel s1 s2 ops :
+  state s1 = Idle -> breakpoint s1 <> None -> norm s1 = norm s2 ->
+  transcript fuel s1 (HLine CONT :: ops) = transcript fuel s2 (HLine CONT :: ops)
+  /\ run_state fuel s1 (HLine CONT :: ops) = run_state fuel s2 (HLine CONT :: ops).
+Proof.
+  intros Hidle Hbp Hn. cbn [transcript run_state].
+  pose proof (cont_reads_runtime_only fuel s1 s2 Hidle Hbp Hn) as H.
+  rewrite !step_snd_call_obs, H.
+  destruct (call_obs fuel s2 (HLine CONT)) as [[[r o] s']|] eqn:E; [split; reflexivity|].
+  exfalso. assert (Hidle2 : state s2 = Idle) by (rewrite <- Hidle; symmetry; exact (f_equal state Hn)).
+  unfold call_obs, legal in E. rewrite Hidle2 in E. cbn [negb] in E. cbv iota in E.
+  destruct (start_evaluating fuel CONT (set_reads 0 s2)); discriminate.
+Qed.
